@@ -17,6 +17,7 @@ import (
 	"google.golang.org/grpc/status"
 	gproto "google.golang.org/protobuf/proto"
 
+	"github.com/theparanoids/ysshra/config"
 	"github.com/theparanoids/ysshra/crypki"
 	"github.com/theparanoids/ysshra/internal/backoff"
 	"github.com/theparanoids/ysshra/verifharness/lib/caserver"
@@ -193,7 +194,23 @@ func signing(r *ev.Run) {
 		sent := gproto.Clone(req).(*proto.SSHCertificateSigningRequest)
 		if r.Guard(c, "Signer", rec, func() {
 			var signer *crypki.Signer
-			signer, cerr = crypki.NewSigner(conf)
+			if idx%3 == 0 {
+				// through the configuration map, as the gensign binary does
+				var epl []any
+				for _, e := range eps {
+					epl = append(epl, e)
+				}
+				m := map[string]any{"tls_client_key_file": clientKey, "tls_client_cert_file": clientCert, "tls_ca_cert_files": []any{caPath}, "crypki_port": port, "retries": 1, "per_try_timeout": perTry.String()}
+				if eps != nil {
+					if epl == nil {
+						epl = []any{}
+					}
+					m["crypki_endpoints"] = epl
+				}
+				signer, cerr = crypki.NewSignerWithGensignConf(config.GensignConfig{SignerConfig: m})
+			} else {
+				signer, cerr = crypki.NewSigner(conf)
+			}
 			if cerr != nil {
 				return
 			}
